@@ -11,15 +11,36 @@ type c37Other struct{ directive.Directive }
 
 func VerifC37LookupHTTPHandler() {
 	rt.Assert("harness covers every parameter method", rt.OwnMethods((*LookupHTTPHandler)(nil), (*directive.Directive)(nil)) == 3)
-	m1, m2 := rt.String("method1", 0, 1), rt.String("method2", 0, 1)
-	c1, c2 := rt.String("client1", 0, 1), rt.String("client2", 0, 1)
+	part := rt.Choose("urlPart", 6)
+	m1, m2, c1, c2, p1, p2 := "GET", "GET", "c", "c", "p", "p"
 	h1, h2 := "a", "a"
-	if rt.Choose("host2", 2) == 1 {
-		h2 = "b"
+	if part == 0 {
+		// method, client, host and path vary (symbolic); the other URL parts are empty
+		m1, m2 = rt.String("method1", 0, 1), rt.String("method2", 0, 1)
+		c1, c2 = rt.String("client1", 0, 1), rt.String("client2", 0, 1)
+		if rt.Choose("host2", 2) == 1 {
+			h2 = "b"
+		}
+		p1, p2 = rt.String("path1", 0, 1), rt.String("path2", 0, 1)
 	}
-	p1, p2 := rt.String("path1", 0, 1), rt.String("path2", 0, 1)
 	u1 := &url.URL{Scheme: "http", Host: h1, Path: "/" + p1}
 	u2 := &url.URL{Scheme: "http", Host: h2, Path: "/" + p2}
+	// with everything else equal, the second URL differs in one other part
+	switch part {
+	case 1:
+		u2.User = url.User("bob")
+		u1.User = url.User("alice")
+	case 2:
+		u2.RawQuery = "x=1"
+	case 3:
+		u2.Fragment = "top"
+	case 4:
+		u1.Path, u1.RawPath = "/a/b", "/a%2Fb"
+		u2.Path, u2.RawPath = "/a/b", ""
+	case 5:
+		u1 = &url.URL{Scheme: "mailto", Opaque: "a@x"}
+		u2 = &url.URL{Scheme: "mailto", Opaque: "b@x"}
+	}
 	a := NewLookupHTTPHandler(m1, u1, c1)
 	b := NewLookupHTTPHandler(m2, u2, c2)
 	// the URL's text form is what the resolvers match on
